@@ -30,7 +30,9 @@ static std::atomic<uint64_t> g_live{0}, g_peak{0}, g_maxreq{0};
 static std::atomic<bool> g_track{false};
 static uint64_t g_declared = 0;
 static uint64_t g_kd_dim = 0;   // total number of components a kd-tree attribute block declares (sizes the tree decoder's stacks)
-extern "C" void DracoVerifDeclaredCount(const char *what, uint64_t c) { if (!g_track) return; g_declared += c; if (what && !strcmp(what, "kd_tree_dimension")) g_kd_dim = c; }
+// only the size of the geometry justifies memory (points, faces, vertices, attribute components); the NUMBER of attributes is a side
+// table count that the remaining input must justify (C18's second clause), so it is reported but not added
+extern "C" void DracoVerifDeclaredCount(const char *what, uint64_t c) { if (!g_track) return; if (!(what && !strcmp(what, "num_attributes"))) g_declared += c; if (what && !strcmp(what, "kd_tree_dimension")) g_kd_dim = c; }
 static void *track_alloc(size_t n) {
   void *p = malloc(n + 16);
   if (!p) return nullptr;
